@@ -96,6 +96,9 @@ class Run:
         self.loop = VLoop(chooser, early,
                           max_iterations=self.cfg.get("max_iterations", 12000))
         self.loop_errors = []
+        self.fault_done = False          # set by the fault injector at the moment of the fault
+        self.stuck_after_fault = None
+        self.loop.on_quiescent = self._on_quiescent
         self.world = None
         self.result = None
         self.remote_tasks = []
@@ -206,6 +209,13 @@ class Run:
                 w.set_initial_event(s["sid"], s["init_event"])
         return w
 
+    def _on_quiescent(self, loop, live, timers):
+        # after a fault that mosaik sees at once, run() must come to an end by itself: a quiescent
+        # loop without any timer that is still running can only go on when a SURVIVING simulator
+        # answers -- which a stuck one never does
+        if self.fault_done and not timers and self.stuck_after_fault is None:
+            self.stuck_after_fault = [repr(g) for g in live][:4]
+
     # -- running ---------------------------------------------------------------
     def execute(self):
         stubs.CTX = self
@@ -235,10 +245,19 @@ class Run:
             except BaseException as e:  # noqa: BLE001
                 res = ("exc", type(e).__name__, str(e)[:300])
             self.result = res
+            if self.cfg.get("double_shutdown"):
+                # the usual idiom `try: world.run() finally: world.shutdown()`: run() has already
+                # shut the world down; the second call must not stop anybody again
+                self.closed_by_mosaik = loop.is_closed()
+                try:
+                    w.shutdown()
+                except BaseException as e:  # noqa: BLE001
+                    self.ev("X", "-", "second-shutdown-raised", type(e).__name__, 0)
             return res
         finally:
             self.gated = False
-            self.closed_by_mosaik = loop.is_closed()
+            if not self.cfg.get("double_shutdown") or not hasattr(self, "closed_by_mosaik"):
+                self.closed_by_mosaik = loop.is_closed()
             try:
                 if not loop.is_closed():
                     loop.allow_idle = True
